@@ -30,6 +30,7 @@ EXPLANATION = (
     "no ctypes.Structure defines a method or property with the name of one of its fields; the optional-int constructor and accessor "
     "are mirror images over the discriminant byte."
     " The test separating 'undefined' from 'integer' in the optional-int constructor is evaluated for None, several ints, a bool and a non-builtin integer object; payload/segment buffers are created per call. C15.Z: no truthiness test on an int-typed value."
+    ' C15.W: no raising guard in a message / OptionalInt constructor rejects a value inside the declared width of the field it is stored in (evaluated at the ends of the range and next to every compared constant). C15.K: memoisation keys cover the arguments.'
 )
 LEVEL_TEXT = (
     "Static analysis, partial: structural round-trip argument for all 9 message classes (tables, offsets, element types, "
@@ -525,19 +526,74 @@ def _eval_len(ctx, m, e):
     return None
 
 
+def check_full_width(ctx):
+    """C15.W — "every message ... deserialises ... with the same field values", for all values of the declared widths: a guard
+    in a constructor of a message / OptionalInt must not reject (raise for) a value that the field it is stored in can hold."""
+    from .. import wire
+    from ..wire import CScalar
+    repo, ev = ctx.repo, ctx.ev
+    n = 0
+    for modname in ("netqasm.lang.encoding", "netqasm.backend.messages"):
+        m = repo.module(modname)
+        for c in m.classes.values():
+            init = c.methods.get("__init__")
+            if init is None:
+                continue
+            try:
+                fields = {nm: (t, b) for nm, t, b in wire.struct_fields(ev, c)}
+            except Exception:
+                continue
+            if not fields:
+                continue
+            # parameter -> field it is stored in
+            stored = {}
+            for st in A.body_nodes(init):
+                if isinstance(st, ast.Assign) and A.is_self_attr(st.targets[0]) and isinstance(st.value, ast.Name) and st.targets[0].attr in fields:
+                    t, bits = fields[st.targets[0].attr]
+                    if isinstance(t, CScalar):
+                        stored[st.value.id] = (st.targets[0].attr, (0, (1 << bits) - 1) if bits is not None else (t.lo, t.hi))
+            for node in ast.walk(init):
+                cond = G.raising_condition(node) if isinstance(node, (ast.If, ast.Assert)) else None
+                if cond is None:
+                    continue
+                for pname, (fld, (lo, hi)) in stored.items():
+                    v = ast.Name(id=pname, ctx=ast.Load())
+                    if not G.mentions(cond, v):
+                        continue
+                    n += 1
+                    ctx.fn(f"{c.name}.__init__")
+                    rej = G.rejected_in_range(ev, m, cond, v, lo, hi)
+                    if rej is None:
+                        continue  # type tests and the like: not a range guard
+                    ctx.check("C15.W", f"{c.name}.__init__:{fld}:guard-admits-the-whole-declared-width", not rej,
+                              f"{c.name}.__init__ raises on `{src(cond)[:70]}`, which rejects {rej[:3]} although {c.name}.{fld} holds {lo}..{hi}: a message carrying that value "
+                              "can no longer be serialised", c.loc(node), sample={"class": c.name, "field": fld, "rejected": rej[:3]})
+    ctx.check("C15.W", "constructor-guards-examined", True, sample={"guards on stored values": n}, trivial=True)
+
+
 def run(ctx):
     classes = check_tables(ctx)
     check_fixed(ctx, classes)
     check_variable(ctx, classes)
     check_shadow(ctx)
+    check_full_width(ctx)
     # 0 is an ordinary id / value / address: nothing int-valued may be tested by truthiness (nqsa/truth.py)
     from .. import truth
     truth.check(ctx, "C15.Z", ['netqasm.lang.encoding', 'netqasm.backend.messages'])
+    # a value remembered for later calls is keyed by every argument it depends on (nqsa/memo.py)
+    from .. import memo
+    memo.check(ctx, "C15.K", ['netqasm.lang.encoding', 'netqasm.backend.messages'])
 
 
 M = "netqasm/backend/messages.py"
 E = "netqasm/lang/encoding.py"
 SEEDS = [
+    dict(id="c15-optionalint-guard-excludes-min", file="netqasm/lang/encoding.py", expect="C15.W", construct="OptionalInt.__init__",
+         old="        else:\n            self.type = self._INT_TYPE\n            self._value = value",
+         new="        else:\n            if not -(2 ** (INTEGER_BITS - 1)) < value < 2 ** (INTEGER_BITS - 1):\n                raise ValueError(\"does not fit\")\n            self.type = self._INT_TYPE\n            self._value = value"),
+    dict(id="c15-optionalint-guard-unsigned", file="netqasm/lang/encoding.py", expect="C15.W", construct="OptionalInt.__init__",
+         old="        else:\n            self.type = self._INT_TYPE\n            self._value = value",
+         new="        else:\n            if value < 0:\n                raise ValueError(\"negative\")\n            self.type = self._INT_TYPE\n            self._value = value"),
     dict(id="c15-optionalint-isinstance", file="netqasm/lang/encoding.py", expect="C15.H", construct="undefined-exactly-when-None",
          old="        if value is None:\n            self.type = self._NULL_TYPE\n            self._value = 0\n        else:\n            self.type = self._INT_TYPE\n            self._value = value",
          new="        if isinstance(value, int):\n            self.type = self._INT_TYPE\n            self._value = value\n        else:\n            self.type = self._NULL_TYPE\n            self._value = 0"),
@@ -561,6 +617,10 @@ SEEDS = [
     dict(id="c15-disc-same", file=E, expect="C15.H", construct="OptionalInt", old="    _INT_TYPE = 0x01", new="    _INT_TYPE = 0x00"),
 ]
 BENIGN = [
+    dict(id="c15-benign-optionalint-exact-guard", file="netqasm/lang/encoding.py",
+         old="        else:\n            self.type = self._INT_TYPE\n            self._value = value",
+         new="        else:\n            if not -(2 ** (INTEGER_BITS - 1)) <= value < 2 ** (INTEGER_BITS - 1):\n                raise ValueError(\"does not fit\")\n            self.type = self._INT_TYPE\n            self._value = value"),
+
     dict(id="c15-benign-optionalint-branches-swapped", file="netqasm/lang/encoding.py",
          old="        if value is None:\n            self.type = self._NULL_TYPE\n            self._value = 0\n        else:\n            self.type = self._INT_TYPE\n            self._value = value",
          new="        if value is not None:\n            self.type = self._INT_TYPE\n            self._value = value\n        else:\n            self.type = self._NULL_TYPE\n            self._value = 0"),
